@@ -110,7 +110,14 @@ def check(ctx, case):
                 # add-after-delete inside ONE timing of a durative action (f := true and f := false at end): the
                 # compiled instantaneous action keeps them in an order where the deletion wins (known finding)
                 shape += ":opposite-boolean-effects-at-one-timing"
+            elif why in ("goal", "condition") and _multi_incdec_one_timing(plan):
+                # two or more increase / decrease effects on one fluent at the END of a durative action: the
+                # compiler turns each into an assignment f := f +- c from the same pre-state value, so they do not
+                # accumulate (known finding)
+                shape += ":several-increase-decrease-on-one-fluent-at-end"
             sig = f"converted-plan-invalid:{why}{shape}"
+            if shape.endswith(":several-increase-decrease-on-one-fluent-at-end"):
+                sig = "converted-plan-invalid:several-increase-decrease-on-one-fluent-at-end"
             if shape.endswith(":start+end-effects-on-one-fluent"):
                 sig = "converted-plan-invalid:start+end-effects-on-one-fluent"
             if shape.endswith(":opposite-boolean-effects-at-one-timing"):
@@ -138,6 +145,23 @@ def _start_end_same_fluent(plan):
                 by_t[t.is_from_start()] = by_t.get(t.is_from_start(), set()) | {e.fluent.fluent().name for e in effs}
             if by_t.get(True, set()) & by_t.get(False, set()):
                 return True
+    return False
+
+
+def _multi_incdec_one_timing(plan):
+    from unified_planning.model import DurativeAction
+
+    for _, a, _, _ in plan:
+        if isinstance(a, DurativeAction):
+            for t, effs in a.effects.items():
+                if t.is_from_start():
+                    continue  # start-time effects are chained through the substitution and do accumulate
+                n = {}
+                for e in effs:
+                    if e.is_increase() or e.is_decrease():
+                        n[e.fluent.fluent().name] = n.get(e.fluent.fluent().name, 0) + 1
+                if any(v >= 2 for v in n.values()):
+                    return True
     return False
 
 
